@@ -254,6 +254,30 @@ def replay(ck, jobs, label):
   return tot
 
 
+class SubCheck(core.Check):
+  """Context for binding self-tests: same known-finding routing, but a violation provoked by a
+  deliberately corrupted expectation must not leave a replay file behind."""
+
+  def __init__(self, ck):
+    self.pid, self.level, self.tier, self.seed = ck.pid, ck.level, ck.tier, ck.seed
+    self.work = ck.work
+    self.violations, self.known_hits, self.selftests, self.assumptions = [], {}, [], []
+    self.cov = {"states": 0, "transitions": 0, "traces_validated_against_impl": 0, "samples": [],
+                "evaluations": 0, "distinct_nontrivial": 0, "tlc_runs": [], "calibration": {}}
+    self._distinct = set()
+    self.findings = list(ck.findings)
+    self.quick = ck.quick
+
+  def violation(self, key, what, replay=None):
+    for f in self.findings:
+      if f.get("status") == "open" and (key == f["key"] or key.startswith(f["key"] + "|")):
+        self.known_hits.setdefault(f["key"], f["what"])
+        return False
+    if not any(v[0] == key for v in self.violations):
+      self.violations.append((key, what, None))
+    return True
+
+
 def guarded_selftest(ck, name, rejected, base_ok):
   """A binding self-test corrupts a case that the real code passes.  If the code under test is
   itself wrong for the base case the self-test says nothing - and must not turn the VIOLATION
@@ -350,8 +374,7 @@ def run(ck):
   base2["items"] = [it for it in base2["items"] if it["ed"]][:1]
   bad2 = copy.deepcopy(base2)
   bad2["items"][0]["diag"][0] += 1         # the expected diagonal entry
-  sub = core.Check(ck.pid, ck.level, ck.tier, ck.seed)
-  sub.work = ck.work
+  sub = SubCheck(ck)
   fl = replay(sub, [base1, bad1, base2, bad2], "selftest")["flags"]
   guarded_selftest(ck, "R: corrupted exported payload set of a normal-range column is an (unmasked) violation",
                    "quant|int8|payload_not_allowed" in fl[1] and
@@ -389,8 +412,7 @@ def run(ck):
            ("V: wrong stored diagonal is rejected", cdiag, ("diagonal_not_stored_exactly",)),
            ("V: wrong column maximum is rejected", d, ("bucket_is_not_column_maxabs_over_N",))]
   have = [c for c in cases if c[1] is not None]
-  sub = core.Check(ck.pid, ck.level, ck.tier, ck.seed)
-  sub.work = ck.work
+  sub = SubCheck(ck)
   vs = sub.validate("Quant_Trace", "Quant_Trace16",
                     [{"x": t["x"], "ed": t["ed"], "events": t["events"]} for _, t, _ in have]) if have else []
   got = {c[0]: v for c, v in zip(have, vs)}
